@@ -126,11 +126,33 @@ class Exec:
                     cur = store.objects.get((req.bucket, req.key))
                     s["pending_x"] = cur.body.decode("utf-8", "replace").strip() if cur is not None else None
 
+            lockstate = {"owner": None, "lost_at": {}}      # who wrote the lock object last; when each actor lost it
+
             def after(req: Any) -> None:
                 me = sched.me()
                 if me is None or me.name not in st:
                     return
                 s = st[me.name]
+                # ownership by WRITER of the lock object (not by its content: two providers may share a token)
+                if req.key == lock_key and req.op == "PUT" and req.effect == "written":
+                    prev = lockstate["owner"]
+                    if prev is not None and prev != me.name:
+                        lockstate["lost_at"][prev] = sched.nstep
+                    lockstate["owner"] = me.name
+                    lockstate["lost_at"].pop(me.name, None)
+                elif req.key == lock_key and req.op == "DELETE" and req.effect == "deleted":
+                    prev = lockstate["owner"]
+                    if prev is not None and prev != me.name:
+                        lockstate["lost_at"][prev] = sched.nstep
+                    lockstate["owner"] = None
+                if req.op != "PUT" or req.key != hint_key:
+                    s["last_req_step"] = sched.nstep
+                elif req.effect == "written" and case["lock"] == "real":
+                    lost = lockstate["lost_at"].get(me.name)
+                    if lost is not None and lost < s.get("last_req_step", 0):
+                        viol.append(("acked-after-losing-lock-before-commit-point",
+                                     f"{me.name} flipped the pointer at step {sched.nstep} although its lock was taken over at step "
+                                     f"{lost}, before its last pre-commit request (step {s.get('last_req_step')})"))
                 if req.op == "GET" and req.key.endswith(".metadata.json") and "/metadata/v" in req.key:
                     s["last_meta"] = req.key.rsplit("/", 1)[-1]
                 elif req.op == "GET" and req.key == lock_key and req.effect == "read":
